@@ -71,7 +71,7 @@ Print Assumptions C12_signature_L3.
    except the new allocation ends with the same contents. *)
 Theorem C12_realize_coherent :
   forall (trips : nat -> nat) (d src td ts s0 : nat) (others : list nat) (post : list item) (s : state),
-    (forall v, alias s v <> d) -> alias s src = alias s s0 ->
+    (forall v, v <> d -> alias s v <> d) -> alias s src = alias s s0 ->
     In (alias s s0) others -> In s0 others -> ~ In d others ->
     (forall v, alias s v = alias s s0 -> In v others) ->
     safe_block d others post = true ->
@@ -91,6 +91,16 @@ Example C12_realize_nonvacuous :
 Proof. exact realize_coherent_nonvacuous. Qed.
 Print Assumptions C12_realize_nonvacuous.
 
+(* the hypotheses of C12_realize_coherent are satisfiable: initial state (every value names its own
+   buffer), cast 2 := cast 0, then reader / accumulating writer / writer / reader of the cast *)
+Example C12_realize_applies :
+  let post := [IOp 0 [(2, KIn); (3, KOut)]; IOp 1 [(3, KIn); (2, KOutAcc)]; IOp 2 [(2, KOut)]; IOp 3 [(2, KIn); (4, KOut)]]%nat in
+  let t := exec_list (fun _ => 1%nat) (ICast 2 0 1 0 :: post) init_state in
+  let t' := exec_list (fun _ => 1%nat) (IAlloc 2 :: fst (ins_list 2 0 false false post)) init_state in
+  trace t = trace t' /\ forall b, b <> 2%nat -> memo t b = memo t' b.
+Proof. exact realize_coherent_applies. Qed.
+Print Assumptions C12_realize_applies.
+
 (* (ii) the former refutation witnesses of findings F22 (write, read, write through one shared cast) and
    F23 (accumulating output): the model of the repaired pass emits no copy-in after a first writer / the
    copy-in for the accumulating output, and both programs now run coherently *)
@@ -105,3 +115,17 @@ Theorem C12_F23_repaired :
   (forall b, In b [0; 1]%nat -> memo (run (realize_all w_acc)) b = memo (run w_acc) b).
 Proof. exact (proj2 w_acc_repaired). Qed.
 Print Assumptions C12_F23_repaired.
+
+(* (ii) outside the flat-block region of C12_realize_coherent: finding F30 (class bad_nested_in): the first
+   use of a cast is a reader inside a loop, the loop runs zero times, the reader after the loop observes
+   the uninitialised buffer *)
+Theorem C12_copy_in_inside_loop_refuted :
+  bad_nested_in w_copy_in_loop = true /\ bad_nested w_copy_in_loop = false /\
+  realize_all w_copy_in_loop =
+    [IAlloc 2; IAlloc 3; IAlloc 4; ILoop 0 [ICopy 0 3; IOp 1 [(3, KIn); (2, KOut)]];
+     IOp 2 [(3, KIn); (4, KOut)]; ICopy 4 1]%nat /\
+  trace (exec_list (fun _ => 0%nat) (realize_all w_copy_in_loop) init_state) <>
+  trace (exec_list (fun _ => 0%nat) w_copy_in_loop init_state).
+Proof. exact copy_in_inside_loop_refuted. Qed.
+Print Assumptions C12_copy_in_inside_loop_refuted.
+
